@@ -448,6 +448,12 @@ def replay_case(case):
     if k == "tasks":
         ops = [tuple(tuple(x) if isinstance(x, list) else x for x in o) for o in case["ops"]]
         return mach.run_task_history(ops)[1]
+    if k == "boot":
+        from tools.vlib import c11_system as S
+        res = S.run_boot_job(dict(case["job"]))
+        if "crash" in res:
+            return [("crash", res["crash"])]
+        return res["bad"]
     if k == "api":
         from tools.vlib import c11_system as S
         res = S.run_api_job(dict(case["job"]))
@@ -548,6 +554,7 @@ def run(ctx):
     for t in th:
         t.start()
     try:
+        stage_boot(ctx, pool)
         stage_api(ctx, pool, pubs)
         stage_service_system(ctx, pool)
         sc, sm = stage_system(ctx, rows, pool)
@@ -572,7 +579,9 @@ def run(ctx):
         "IPv8 instances (default configuration minus bootstrappers, ticker running) with unload_overlay / stop at several virtual "
         "times followed by 90 s of observation; (e) every public coroutine of every overlay class (table from the translator, "
         "fail-closed) started by the application and still pending - peers answering late or not at all - when unload() is "
-        "requested at several instants, then 60 s of observation of the endpoint. "
+        "requested at several instants, then 60 s of observation of the endpoint; (f) every overlay class with each shipped "
+        "bootstrapper class (fake broadcast socket / fake resolver), bootstrap() then unload() at each of the first loop "
+        "iterations: no pending task or timer in the loop, no open bootstrap socket, late datagrams on such a socket. "
         "non-trivial = a listener was called / a task event occurred / the overlay handled or sent a datagram before unload"
         % ((4, 3, 3, 4) if ctx.quick else (6, 5, 5, 6)))
     ctx.coverage["exhaustive"] = False
@@ -758,3 +767,31 @@ def stage_api(ctx, pool, pubs):
             ctx.violation(key, "%s [unload %.2fs after the call, seed %d]" % (what, job["t"], job["seed"]), {"kind": "api", "job": job})
     ctx.extra["pending_api_runs"] = stats
     ctx.extra["public_coroutines"] = [[c, m, r] for c, m, r in (pubs or [])]
+
+
+# ======================================================================================= (f) bootstrappers
+def boot_jobs(ctx):
+    from tools.vlib import c11_system as S
+    jobs = []
+    for cls in S.shipped_classes():
+        for boot in ("UDPBroadcastBootstrapper", "DispersyBootstrapper"):
+            for it in range(0, 7 if ctx.quick else 12):
+                for seed in range(1, (1 if ctx.quick else 2) + 1):
+                    jobs.append({"boot_job": True, "cls": cls, "boot": boot, "iteration": it, "seed": seed, "eager": it % 2 == 1})
+    return jobs
+
+
+def stage_boot(ctx, pool):
+    from tools.vlib import c11_system as S
+    results = pool.map(S.run_boot_job, boot_jobs(ctx), chunksize=4)
+    n = 0
+    for res in results:
+        job = res["job"]
+        if "crash" in res:
+            ctx.broke("bootstrapper run crashed (%s + %s)" % (job["cls"], job["boot"]), res["crash"])
+            continue
+        n += 1
+        ctx.count(("BOOT", job["cls"], job["boot"], job["iteration"], job["seed"]), nontrivial=job["iteration"] > 0)
+        for key, what in res["bad"]:
+            ctx.violation(key, what, {"kind": "boot", "job": job})
+    ctx.extra["bootstrapper_runs"] = n
